@@ -19,7 +19,7 @@ PID = "C19"
 RULE = (
     "Hypothesis-generated exception graphs as recipes: 1-6 nodes, each a class from a 38-entry catalogue (builtins incl. "
     "OSError family / UnicodeDecodeError / KeyError / StopIteration / ExceptionGroup, BaseException subclasses, "
-    "classes with value equality (hand-written __eq__/__hash__, a dataclass exception) with distinct-but-equal objects on one chain, module-level, nested, function-local, type()-created, name-shadowing, unloaded-module and module-less (__module__ None) classes, custom __init__ "
+    "un-encodable state attached to the instance (not its arguments), classes with value equality (hand-written __eq__/__hash__, a dataclass exception) with distinct-but-equal objects on one chain, module-level, nested, function-local, type()-created, name-shadowing, unloaded-module and module-less (__module__ None) classes, custom __init__ "
     "signatures, taskiq's own errors), 0-3 args from JSON-native values (incl. >64-bit ints, nested containers) or 23 "
     "awkward ones (bytes, set, complex, datetime, Decimal, lambda, lock, generator, un-repr-able object, nan/inf, tuple, "
     "int-keyed dict, str subclass, lone-surrogate text and key, NUL, exception instances incl. ones that pickle but cannot be unpickled), cause / context edges to ANY node (shared nodes, "
@@ -60,7 +60,9 @@ JSONV = st.recursive(
 ARG = st.one_of(JSONV.map(lambda v: ["json", v]), JSONV.map(lambda v: ["json", v]), st.sampled_from(sorted(excat.SPECIAL)).map(lambda k: ["special", k]))
 NODE = st.fixed_dictionaries(dict(
     cls=st.sampled_from(sorted(CLASSES)), args=st.lists(ARG, max_size=3),
-    cause=st.one_of(st.none(), st.integers(0, 5)), ctx=st.one_of(st.none(), st.integers(0, 5)), suppress=st.booleans()))
+    cause=st.one_of(st.none(), st.integers(0, 5)), ctx=st.one_of(st.none(), st.integers(0, 5)), suppress=st.booleans(),
+    # something un-encodable attached to the INSTANCE after it was built (a lock, a generator, a response object kept on the error)
+    state=st.sampled_from([None, None, None, "lock", "generator", "lambda"])))
 
 
 def graphs() -> Any:
@@ -108,6 +110,11 @@ def build(g: List[Dict[str, Any]]) -> BaseException:
                 e = cls(*args)
         except Exception:  # noqa: BLE001
             e = ValueError("ctor failed")
+        if nd.get("state"):
+            try:
+                e.kept_state = excat.SPECIAL[nd["state"]]()  # type: ignore[attr-defined]
+            except Exception:  # noqa: BLE001 - classes without an instance dict
+                pass
         objs.append(e)
     for i, nd in enumerate(g):
         if nd["cause"] is not None and nd["cause"] < len(objs):
@@ -240,9 +247,16 @@ def check_pickle(orig: BaseException, loaded: Any, out: Outcome) -> None:
 
     ok = resolvable(cls) and all(pk(a) for a in args)
     if ok:
+        # "representable" = the error can be carried over by its class and arguments: the instance itself pickles, or a
+        # fresh cls(*args) does (the instance may hold un-picklable state next to its arguments)
+        def carries(x: Any) -> bool:
+            try:
+                return pickle.loads(pickle.dumps(x)).args == args
+            except Exception:  # noqa: BLE001
+                return False
+
         try:
-            ok = pk(orig) is not None and cls(*args).args == args
-            pickle.loads(pickle.dumps(orig))
+            ok = cls(*args).args == args and (carries(orig) or carries(cls(*args)))
         except Exception:  # noqa: BLE001
             ok = False
     if ok:
@@ -310,7 +324,7 @@ def run_case(case: Dict[str, Any]) -> Outcome:
     rl = sorted(reach)
     twins = any(g[a]["cls"] in ("ValueEq", "DataErr") and g[a]["cls"] == g[b]["cls"] and g[a]["args"] == g[b]["args"] for a in rl for b in rl if a < b)
     out.nontrivial = bool((len(reach) >= 2 and (nonres or nonenc)) or cyc or twins)
-    out.classes = [c for c, f in (("cycle", cyc), ("non_resolvable_class", nonres), ("awkward_arg", nonenc), ("value_equal_distinct_nodes", twins),
+    out.classes = [c for c, f in (("cycle", cyc), ("non_resolvable_class", nonres), ("awkward_arg", nonenc), ("value_equal_distinct_nodes", twins), ("unencodable_instance_state", any(g[i].get("state") for i in reach)),
                                   ("chain>=3", len(reach) >= 3), ("single_node", len(reach) == 1)) if f]
     out.trace = {"reachable_nodes": len(reach)}
     return out
